@@ -444,6 +444,14 @@ def enumerate_paths(body, start=0, stop_at=(), max_visits=2, limit=50000, prune=
                 continue
             counts[s] = counts.get(s, 0) + 1
             pushed = False
+            extra_pushed = 0
+            if mk is not None and mk[0] == "pure" and _re.search(r"Option::<T>::(is_none|is_some)$", mk[1]) and len(mk[2]) == 1 and "0" in t["vals"]:
+                # is_none(x) == b  <=>  discriminant(x) == (0 if b else 1)   (Option: None = 0, Some = 1)
+                truth = s != t["tgts"][t["vals"].index("0")]
+                is_none = mk[1].endswith("is_none")
+                some = (not truth) if is_none else truth
+                decisions.append((("discr", mk[2][0]), ("val", 1 if some else 0)))
+                extra_pushed += 1
             if mk is not None:
                 vals_here = [int(val) for val, g in zip(t["vals"], t["tgts"]) if g == s]
                 if s != t["otherwise"] and len(vals_here) == 1:
@@ -456,6 +464,8 @@ def enumerate_paths(body, start=0, stop_at=(), max_visits=2, limit=50000, prune=
             rec()
             blocks.pop()
             if pushed:
+                decisions.pop()
+            for _ in range(extra_pushed):
                 decisions.pop()
             counts[s] -= 1
 
